@@ -70,6 +70,28 @@ PROPS["C04"] = {
     "assumptions": ["expressions created by a patch are read from the assembler result captured at _invoke_patch; CFI directive keys are only checked for liveness and range here (their meaning is C08's)"],
 }
 
+PROPS["C05"] = {
+    "engine": "rwsim",
+    "level": "fault_enumeration",
+    "quick_runs": 4000,
+    "thorough_runs": 30000,
+    "quick_wall": 240,
+    "thorough_wall": 2400,
+    "params": {"annot_p": 0.2},
+    "rule": "seeded scenarios as for C01; after every session the whole-IR validator (blocks in intervals, no overlap of new blocks, "
+    "every node in CFG / symbols / expressions / any aux table is in the module, zero-sized blocks only in documented cases, "
+    "addresses, protobuf round trip); then, per scenario with N patch callbacks, N more executions from a fresh build with an "
+    "exception injected into callback k for EVERY k=1..N (enumerated), followed by the failure-path validator and one empty "
+    "follow-up session; other fault kinds (callback returns None / empty text / ill-formed assembly / unknown symbol / "
+    "redefinition) are sampled; distinct = (module, sessions) digest; non-trivial = at least one patch callback ran",
+    "real_vs_stub": RW_REAL,
+    "level_text": "fault enumeration inside seeded exploration: for each sampled scenario every patch-callback position k is failed once (exhaustive per scenario); scenarios themselves are sampled",
+    "assumptions": [
+        "failure path: only what the property states is demanded (closed, serializable, ir.cfg is the caller's object with the cache's edges, no stranded symbol); nothing about re-joined intervals or addresses",
+        "zero-sized blocks are judged against doc/Deletion.md on the final layout (adjacency at the time of the deletion is approximated by final adjacency)",
+    ],
+}
+
 # (moved below)
 # engines built separately contribute their own entries
 import importlib as _il
